@@ -66,6 +66,19 @@ func c15Gen(r *Rand, tier string) interface{} {
 		in.Holders = []c15Holder{{Map: a}, {Map: b}}
 		return in
 	}
+	if r.Chance(1, 6) {
+		// three parties: A inside (parked), C queues behind A on a shared name with a map of
+		// several entries, B is disjoint from both (also several entries) and must still get in
+		in.Shape = 2
+		a := map[string]bool{"db": true}
+		c := map[string]bool{"db": r.Bool(), "fs": r.Bool()}
+		if !c["db"] {
+			a["db"] = true // A writes db, so C (reading or writing db) must wait
+		}
+		b := map[string]bool{"net": r.Bool(), "x": r.Bool()}
+		in.Holders = []c15Holder{{Map: a}, {Map: b}, {Map: c}}
+		return in
+	}
 	n := 2 + r.Intn(3)
 	if tier == "thorough" {
 		n = 2 + r.Intn(5)
@@ -160,6 +173,44 @@ func c15Run(inI interface{}, env *Env) *Failure {
 			wg.Wait()
 			return
 		}
+		if in.Shape == 2 {
+			a, b, c := in.Holders[0], in.Holders[1], in.Holders[2]
+			var gate, aInside, cStarted simrt.WaitGroup
+			gate.Add(1)
+			aInside.Add(1)
+			cStarted.Add(1)
+			wg.Add(3)
+			simrt.GoNamed("holderA", func() {
+				defer wg.Done()
+				h := sm.Lock(commservices.LockMap(a.Map))
+				enter(0, a.Map)
+				aInside.Done()
+				gate.Wait()
+				leave(a.Map)
+				h.Unlock()
+			})
+			simrt.GoNamed("holderC", func() {
+				defer wg.Done()
+				aInside.Wait()
+				cStarted.Done()
+				h := sm.Lock(commservices.LockMap(c.Map)) // queues behind A
+				enter(2, c.Map)
+				leave(c.Map)
+				h.Unlock()
+			})
+			simrt.GoNamed("holderB", func() {
+				defer wg.Done()
+				cStarted.Wait()
+				simrt.WaitQuiescent() // C has gone as far as it can: it waits for A's resource
+				h := sm.Lock(commservices.LockMap(b.Map))
+				enter(1, b.Map)
+				gate.Done() // only B, from inside its section, lets A go
+				leave(b.Map)
+				h.Unlock()
+			})
+			wg.Wait()
+			return
+		}
 		wg.Add(len(in.Holders))
 		for i, hd := range in.Holders {
 			i, hd := i, hd
@@ -185,6 +236,13 @@ func c15Run(inI interface{}, env *Env) *Failure {
 	}
 	if overlaps > 0 {
 		env.CountN("probe.readers-inside-together", overlaps)
+	}
+	if in.Shape == 2 {
+		env.Count("probe.three-party-independence-probe-runs")
+		if res.Deadlock && !res.MainDone {
+			return failf("C15/independence", "three-party:"+c15Key(in.Holders[1].Map),
+				"a holder whose lock map is disjoint from every other holder's could not enter while one holder was inside and another was queued behind it: %v", res.Blocked)
+		}
 	}
 	if in.Shape == 1 {
 		env.Count("probe.independence-probe-runs")
@@ -226,6 +284,9 @@ func c15Shrink(inI interface{}) []interface{} {
 				out = append(out, c)
 			}
 		}
+	}
+	if in.Shape == 2 {
+		return out // the probe's maps are constructed, not shrunk
 	}
 	for i := range in.Holders {
 		names := []string{}
